@@ -188,7 +188,11 @@ impl ArgMatcher {
                 Some(compare_macro) => {
                     let span = pat_macro.mac.path.span();
                     let tokens = pat_macro.mac.tokens;
-                    let local_ident = syn::Ident::new(&format!("l{local_counter}"), span);
+                    // hygiene: a binding in the user's patterns (e.g. one named `l0`) must not capture this local
+                    let local_ident = syn::Ident::new(
+                        &format!("l{local_counter}"),
+                        span.resolved_at(proc_macro2::Span::mixed_site()),
+                    );
                     *local_counter += 1;
 
                     let pat_bind_ident =
